@@ -226,3 +226,39 @@ func SortBinds(bs []*Bind) {
 		return bs[i].Port < bs[j].Port
 	})
 }
+
+// LenAcrossUnknown: unknown code may change the map between the two reads.
+func LenAcrossUnknown(m map[string]int, f func()) bool {
+	n := len(m)
+	f()
+	return len(m) == n
+}
+
+// LenFirstAfterUnknown: the first use of a map component comes after the
+// unknown call (regression: lazily registered components escaped the havoc).
+func LenFirstAfterUnknown(m map[string]int, f func()) int {
+	f()
+	return len(m)
+}
+
+type Pair struct {
+	Name string
+	W    *int32
+}
+
+// Weights: per-iteration postcondition (loop step clause) and a pointer to a
+// basic type that cannot alias the result's backing array.
+func Weights(ps []Pair) []int {
+	var out []int
+	for _, p := range ps {
+		if p.Name == "" {
+			continue
+		}
+		w := 1
+		if p.W != nil {
+			w = int(*p.W)
+		}
+		out = append(out, w)
+	}
+	return out
+}
